@@ -59,11 +59,27 @@ def run_engine(tier, seed, kinds="XFC", sizes=None):
     os.makedirs(workdir)
     sources = os.path.join(workdir, "sources.txt")
     nsrc = snapshots.write_sources(sources, kinds)
-    nruns, n = sizes or ((16, 90) if tier == "quick" else (64, 1200))
+    # corpus first: minimised past failures (plan files; @SNAP@ = extracted snapshots directory)
+    import glob
+    corpus_problems, ncorpus = [], 0
+    for f in sorted(glob.glob(os.path.join(ROOT, "corpus", "topoload", "*.plan"))):
+        for l in read_lines(f):
+            if not l or l.startswith("#"):
+                continue
+            l = l.replace("@SNAP@", snapshots.SNAP)
+            for lx in (0, 1):
+                rr, vv = replay_case(binp, workdir, l, lx)
+                ncorpus += 1
+                cid = l.split()[0]
+                if rr.returncode != 0 or vv.get(cid, "WF ok") != "WF ok":
+                    corpus_problems.append({"what": "corpus case %s (%s) fails again" % (cid, os.path.basename(f)), "seed": 0,
+                        "replay": "# plan line (HWLOC_LIBXML=%d)\n%s\n# verdict: %s, harness exit %d\n# %s\n" % (
+                            lx, l, vv.get(cid), rr.returncode, rr.stdout[-1500:].replace("\n", "\n# "))})
+    nruns, n = sizes or ((16, 300) if tier == "quick" else (64, 2500))
     seeds = [int(seed) * 1000003 + i for i in range(nruns)]
     with ThreadPoolExecutor(NCPU) as ex:
         results = list(ex.map(lambda a: one_run(binp, workdir, a[0], a[1], n, sources), enumerate(seeds)))
-    problems, stats, distinct = [], {"loaded": 0, "load_failed": 0}, set()
+    problems, stats, distinct = list(corpus_problems), {"loaded": 0, "load_failed": 0, "corpus": ncorpus}, set()
     samples = []
     for r in results:
         cases = [l for l in r["plan"] if l and not l.startswith("#")]
